@@ -3,6 +3,7 @@
 From Coq Require Import ZArith List Bool Arith Lia.
 From MomoCommon Require Import GenPrelude.
 From C20 Require Import PoolAlloc.
+From C20 Require Gen_PoolAllocator.
 Import ListNotations.
 Local Open Scope nat_scope.
 
@@ -617,6 +618,8 @@ Proof.
   - apply step_alloc; auto.
   - apply step_dealloc; auto.
   - apply step_allocfail; auto.
+  - eexists _, _. split; [reflexivity|]. split; [exact I|]. split; [reflexivity|]. unfold balanced; proj; lia.
+  - eexists _, _. split; [reflexivity|]. split; [exact I|]. split; [reflexivity|]. unfold balanced; proj; lia.
 Qed.
 
 Fixpoint sum_allocs (l : list obs) : nat := match l with [] => 0 | o :: r => o_allocs o + sum_allocs r end.
@@ -711,6 +714,8 @@ Definition op_pools (st : state) (o : op) : list nat :=
   | OpAlloc h _ _ => [hpool (handles st h)]
   | OpDealloc h _ _ _ => [hpool (handles st h)]
   | OpAllocFail h _ _ => [hpool (handles st h)]
+  | OpElem _ => []
+  | OpQuery _ _ => []
   end.
 
 (* pool q and the blocks obtained through it are untouched *)
@@ -776,6 +781,8 @@ Proof.
          [destruct (from_cache st (hpool (handles st h))); [discriminate|]|]]|];
       inversion E; subst; unfold set_cached, set_pool; proj; try rewrite updn_other by exact Hne;
       (split; [reflexivity|]; split; [lia|]; split; [lia|]; intros; reflexivity).
+  - inversion E; subst. repeat split; auto.
+  - inversion E; subst. repeat split; auto.
 Qed.
 
 (* a history none of whose operations goes through an allocator that shares pool q *)
@@ -1303,6 +1310,8 @@ Proof.
     + destruct (params_eqb (get_params (hvt (handles st h))) (pparams (pools st p0))).
       * destruct (from_cache st p0); [discriminate|]. inversion E; subst. exact B.
       * inversion E; subst. exact B.
+  - inversion E; subst; exact B.
+  - inversion E; subst; exact B.
 Qed.
 
 Theorem run_cache_bounded : forall ops st st' obs, cache_bounded st -> run st ops = Ok (st', obs) -> cache_bounded st'.
@@ -1356,7 +1365,128 @@ Proof.
   - destruct (release st (hpool (handles st h))) as [[s1 fr]| | |] eqn:Er; try discriminate.
     inversion E; subst. destruct (release_frame _ _ _ _ Er) as [R1 [R2 [R3 [R4 R5]]]]. unfold set_handle; proj.
     split; [exact R1|]. split; [exact R2|]. split; [exact R3|]. intros q Hq. apply R5.
+  - inversion E; subst. repeat split; auto.
+  - inversion E; subst. repeat split; auto.
 Qed.
+
+
+(* ------------------------------------------------------------------ round 5: the generated decision logic *)
+(* what [step] does on allocate / deallocate is exactly the decision functions *)
+Theorem step_alloc_follows_decision st h n grow st' ob : step st (OpAlloc h n grow) = Ok (st', ob) ->
+  let H := handles st h in
+  match alloc_decision cfg (hvt H) (pools st (hpool H)) n with
+  | APool r => o_dest ob = Some (Pooled (pparams (pools st' (hpool H)))) /\ o_reparam ob = r /\
+               (r = true -> pparams (pools st' (hpool H)) = get_params (hvt H)) /\
+               (r = false -> pparams (pools st' (hpool H)) = pparams (pools st (hpool H)))
+  | ARaw sz => o_dest ob = Some (RawMem sz) /\ o_reparam ob = false /\ pools st' = pools st
+  end.
+Proof.
+  intros E. cbv zeta. unfold PoolAlloc.step in E. cbv zeta in E. unfold alloc_decision.
+  destruct (n =? 1)%Z.
+  - destruct (params_eqb (get_params (hvt (handles st h))) (pparams (pools st (hpool (handles st h))))) eqn:Eq; cbn [negb andb] in *.
+    + inversion E; subst; unfold set_cached, push_block, set_pool; proj. rewrite updn_same; proj.
+      repeat split; auto. discriminate.
+    + destruct (Nat.eqb (pcount (pools st (hpool (handles st h)))) 0).
+      * inversion E; subst; unfold set_cached, push_block, set_pool; proj. rewrite updn_same; proj.
+        repeat split; auto. discriminate.
+      * inversion E; subst; unfold push_block; proj. repeat split; reflexivity.
+  - inversion E; subst; unfold push_block; proj. repeat split; reflexivity.
+Qed.
+
+Theorem step_dealloc_follows_decision st h b n shrink st' ob : step st (OpDealloc h b n shrink) = Ok (st', ob) ->
+  let H := handles st h in
+  match dealloc_decision cfg (hvt H) (pools st (hpool H)) n with
+  | DPool => o_dest ob = Some (Pooled (pparams (pools st (hpool H)))) /\ pcount (pools st (hpool H)) = S (pcount (pools st' (hpool H)))
+  | DRaw sz => o_dest ob = Some (RawMem sz) /\ pools st' = pools st
+  end.
+Proof.
+  intros E. cbv zeta. unfold PoolAlloc.step in E. cbv zeta in E. unfold dealloc_decision.
+  destruct ((n =? 1)%Z && params_eqb (get_params (hvt (handles st h))) (pparams (pools st (hpool (handles st h))))).
+  - destruct (pcount (pools st (hpool (handles st h)))) eqn:Ec; [discriminate|].
+    inversion E; subst; unfold set_cached, set_block, set_pool; proj. rewrite updn_same; proj. split; reflexivity.
+  - inversion E; subst; unfold set_block; proj. split; reflexivity.
+Qed.
+
+(* the cxx2coq-GENERATED pvIsEqual / deallocate / allocate (regenerated from pool_allocator.h on every run) compute
+   exactly these decisions, for any representation [dec] of the opaque MemPoolParams objects, any effect
+   functions and any memory manager handle; sizes stay below 2^64 *)
+Lemma gen_pvIsEqual_refines (dec : Z -> params) a b :
+  Gen_PoolAllocator.pvIsEqual (fun e => fst (dec e)) (fun e => snd (dec e)) a b = params_eqb (dec a) (dec b).
+Proof. reflexivity. Qed.
+
+Theorem gen_deallocate_refines (dec : Z -> params) poolP myP mm evp evr route ptr count vt P :
+  dec myP = get_params vt -> dec poolP = pparams P -> (0 <= count * vsize vt < 2 ^ 64)%Z ->
+  Gen_PoolAllocator.deallocate (fun e => fst (dec e)) (fun e => snd (dec e)) poolP myP mm evp evr (vsize vt) route ptr count =
+  match dealloc_decision cfg vt P count with
+  | DPool => evp route ptr
+  | DRaw sz => evr route mm ptr sz
+  end.
+Proof.
+  intros E1 E2 Hr. unfold Gen_PoolAllocator.deallocate, dealloc_decision. rewrite gen_pvIsEqual_refines, E1, E2.
+  destruct ((count =? 1)%Z && params_eqb (get_params vt) (pparams P)); [reflexivity|].
+  rewrite wrapU_small by exact Hr. reflexivity.
+Qed.
+
+Theorem gen_allocate_refines (dec : Z -> params) poolP myP mm palloc ralloc evrec route count vt P :
+  dec myP = get_params vt -> dec poolP = pparams P -> (0 <= count * vsize vt < 2 ^ 64)%Z ->
+  Gen_PoolAllocator.allocate (fun e => fst (dec e)) (fun e => snd (dec e)) poolP (Z.of_nat (pcount P)) myP mm palloc ralloc evrec (vsize vt) route count =
+  match alloc_decision cfg vt P count with
+  | APool true => (palloc, evrec route myP)        (* line 119 executed, then the pool's Allocate *)
+  | APool false => (palloc, route)
+  | ARaw sz => (ralloc mm sz, route)
+  end.
+Proof.
+  intros E1 E2 Hr. unfold Gen_PoolAllocator.allocate, alloc_decision. rewrite gen_pvIsEqual_refines, E1, E2.
+  rewrite (wrapU_small 64 (count * vsize vt)) by exact Hr.
+  destruct (count =? 1)%Z; [|reflexivity].
+  destruct (params_eqb (get_params vt) (pparams P)); cbn [negb andb]; [reflexivity|].
+  assert ((Z.of_nat (pcount P) =? 0)%Z = Nat.eqb (pcount P) 0) as ->.
+  { destruct (pcount P); [reflexivity|]. simpl. reflexivity. }
+  destruct (Nat.eqb (pcount P) 0); reflexivity.
+Qed.
+
+(* ------------------------------------------------------------------ round 5: operator==, construct/destroy *)
+(* operator== is pool identity: an equivalence; equal allocators of one value type have the same deallocation
+   rights; copies / rebinds / rvalue constructions compare equal to their source, select_on_container_copy_construction
+   does not *)
+Theorem alloc_eq_equiv st : (forall h, alloc_eq st h h = true) /\
+  (forall a b, alloc_eq st a b = alloc_eq st b a) /\
+  (forall a b c, alloc_eq st a b = true -> alloc_eq st b c = true -> alloc_eq st a c = true).
+Proof.
+  unfold alloc_eq. split; [intros; apply Nat.eqb_refl|]. split; [intros; apply Nat.eqb_sym|].
+  intros a b c H1 H2. apply Nat.eqb_eq in H1, H2. apply Nat.eqb_eq. congruence.
+Qed.
+
+Theorem alloc_eq_interchangeable st h k b n s : alloc_eq st h k = true -> handle_ok st k = true ->
+  hvt (handles st k) = hvt (handles st h) ->
+  proto_ok st (OpDealloc h b n s) = true -> proto_ok st (OpDealloc k b n s) = true.
+Proof.
+  unfold alloc_eq. intros E Hk Hv P. apply Nat.eqb_eq in E. simpl in *. rewrite Hk, Hv, <- E.
+  repeat rewrite andb_true_iff in P. destruct P as [[[[[_ P1] P2] P3] P4] P5]. rewrite P1, P2, P3, P4, P5. reflexivity.
+Qed.
+
+Theorem alloc_eq_after_ops st h :
+  (forall st1 ob, step st (OpCopy h) = Ok (st1, ob) -> alloc_eq st1 (nhandles st) h = true) /\
+  (forall st1 ob, step st (OpMove h) = Ok (st1, ob) -> alloc_eq st1 (nhandles st) h = true) /\
+  (forall vt st1 ob, step st (OpRebind h vt) = Ok (st1, ob) -> alloc_eq st1 (nhandles st) h = true) /\
+  (forall st1 ob, inv st -> handle_ok st h = true -> step st (OpSocc h) = Ok (st1, ob) -> alloc_eq st1 (nhandles st) h = false).
+Proof.
+  assert (Hshare : forall vt, alloc_eq (push_handle (acquire st (hpool (handles st h))) (mkHandle true (hpool (handles st h)) vt)) (nhandles st) h = true).
+  { intros vt. unfold alloc_eq, push_handle; proj. rewrite updn_same; proj.
+    unfold updn, acquire, set_pool; proj. destruct (Nat.eqb h (nhandles st)); proj; apply Nat.eqb_refl. }
+  split; [|split; [|split]].
+  - intros st1 ob E. simpl in E. inversion E; subst. apply Hshare.
+  - intros st1 ob E. simpl in E. inversion E; subst. apply Hshare.
+  - intros vt st1 ob E. simpl in E. inversion E; subst. apply Hshare.
+  - intros st1 ob I Hok E. simpl in E. inversion E; subst. unfold alloc_eq, push_handle, push_pool; proj. rewrite updn_same; proj.
+    apply handle_ok_spec in Hok as [Hlt Ha]. rewrite updn_other by lia.
+    pose proof (i_hnd _ I h Hlt Ha). apply Nat.eqb_neq. lia.
+Qed.
+
+(* frame: construct / destroy / == / != / get_base_allocator leave the whole allocator state untouched *)
+Theorem elem_query_frame st : (forall h, step st (OpElem h) = Ok (st, mkObs None None (hpool (handles st h)) 0 0 false)) /\
+  (forall h1 h2, step st (OpQuery h1 h2) = Ok (st, mkObs None None (hpool (handles st h1)) 0 0 false)).
+Proof. split; reflexivity. Qed.
 
 End Proofs.
 
